@@ -383,13 +383,18 @@ func (w *World) visitor(r *Rec, isMap bool) func(k int, v int64) bool {
 				w.ExecCache(Op{K: CSet, Key: derivedKey(k), Val: derivedVal(k, v), D: r.Op.D}, true)
 			}
 		case VisLoadOther:
+			if len(r.Visits) > 8 {
+				break // a few nested reads per traversal are enough
+			}
 			if isMap {
 				w.ExecMap(Op{K: MLoad, Key: r.Op.Key}, true)
 			} else {
 				w.ExecCache(Op{K: CGet, Key: r.Op.Key}, true)
 			}
 		case VisAll:
-			w.reenterAll(isMap, k, v)
+			if len(r.Visits) <= 8 {
+				w.reenterAll(isMap, k, v)
+			}
 		}
 		if r.Op.Stop > 0 && len(r.Visits) >= r.Op.Stop {
 			return false
